@@ -212,7 +212,8 @@ class Discharger:
             if has_not_hasattr_guard(ev, attr):
                 return "W-init"
             val = ev.data["value"]
-            if w.loc in val.origins and ev.data.get("how") in ("=",):
+            if w.loc in val.origins and ev.data.get("how") in ("=",) and not (
+                    {"global_rng", "os_entropy"} & set(val.deps)):
                 return "W-norm"
             if attr == "n_features_in_" and ev.fi.name == "check_n_features" and ev.fi.cls is None:
                 return "W-meta"
@@ -269,23 +270,29 @@ def run(p, report, tier):
     diag = set()
     callstats = {}
     for ci, f in ents:
-        it = Interp(p)
-        it.run_entity(ci, f)
-        n_events += len(it.events)
-        diag |= it.diag
-        for _k, _v in it.stats.items():
-            callstats[_k] = callstats.get(_k, 0) + _v
-        dis = Discharger(p, ci, it)
         ent = f"{ci.name}.{f.name}"
-        seen = set()
-        for w in writes(it.events, roots=("self",)):
-            construct = f"{w.locname()} {w.kind} in {w.ev.fi.qual}: {norm_stmt(w.ev.node)}"
-            if construct in seen:
-                continue
-            tag, why = dis.classify(w)
-            seen.add(construct)
+        verdicts = {}
+        # three views of the lazily created state: unknown (every hasattr test explores both
+        # branches, values merged), cold (first call on a fresh object: precise values of what
+        # the call creates) and warm (everything exists already)
+        for mode in (None, "cold", "warm"):
+            it = Interp(p)
+            it.hasattr_mode = mode
+            it.run_entity(ci, f)
+            n_events += len(it.events)
+            diag |= it.diag
+            for _k, _v in it.stats.items():
+                callstats[_k] = callstats.get(_k, 0) + _v
+            dis = Discharger(p, ci, it)
+            for w in writes(it.events, roots=("self",)):
+                construct = f"{w.locname()} {w.kind} in {w.ev.fi.qual}: {norm_stmt(w.ev.node)}"
+                tag, why = dis.classify(w)
+                cur = verdicts.get(construct)
+                if cur is None or (cur[0] is not None and tag is None):
+                    verdicts[construct] = (tag, why, w, mode)
+        for construct, (tag, why, w, mode) in verdicts.items():
             report.add(RULE, ent, construct, w.ev.loc, tag is not None,
-                       detail=tag or why, nontrivial=True,
+                       detail=tag or (why + (f" [{mode} start]" if mode else "")), nontrivial=True,
                        path=w.ev.path())
     if tier == "thorough":
         # every stream strategy combined with every project budget manager a
